@@ -259,6 +259,23 @@ var<private> gk: i32 = K * 6;
 			defect: "initializers of var<private> globals are dropped by the SPIR-V backend (OpVariable emitted without initializer, no store): the variable reads as undefined/zero",
 		},
 		{
+			name: "switch_break_as_last_statement",
+			src: hdrOutI + hdrInI + `
+fn f(i: i32) { switch i { default: { break; } } }
+fn g(i: i32) -> i32 {
+  var r = 1;
+  switch i { case 1: { r = 2; break; } default: { break; } }
+  return r;
+}
+` + cs1 + `
+  f(inp[0]);
+  out[0] = g(inp[0]) * 10 + g(inp[1]);
+}`,
+			bufs:   map[int][]byte{1: i32s(1, 5)},
+			want:   []any{21},
+			defect: "a void function whose last statement is a switch with `break` in a case: the merge block (reached by the break) is emitted as OpUnreachable instead of OpReturn",
+		},
+		{
 			name: "private_globals_eval_order",
 			src: hdrOutU + hdrInU + `
 var<private> counter: u32 = 0u;
@@ -277,8 +294,9 @@ fn combine(a: u32, b: u32, c: u32) -> u32 { return a * 100u + b * 10u + c; }
   let v = vec2<u32>(next(), next());          // 10, 11
   out[6] = v.x * 100u + v.y;
 }`,
-			bufs: map[int][]byte{1: u32s(7)},
-			want: []any{123, uintMax, 5, 0, 42, 789, 1011},
+			bufs:           map[int][]byte{1: u32s(7)},
+			zeroInitDefect: "var<private> without/with dropped initializer is emitted as OpVariable without initializer: contents undefined in SPIR-V, WGSL requires the zero value",
+			want:           []any{123, uintMax, 5, 0, 42, 789, 1011},
 		},
 		{
 			name: "shadowing",
